@@ -1250,21 +1250,33 @@ fn c10_read_bytes_index() {
 fn is_dec(r: &Result<Num, hifijson::Error>, text: &str) -> bool {
     matches!(r, Ok(Num::Dec(s)) if s.as_str() == text)
 }
+static mut RADIX_ARG: Option<(usize, u8, u8, u32)> = None;
+/// ghost stub for `Num::from_str_radix` (the integer parser itself is `core` / num-bigint)
+fn from_str_radix_stub(i: &str, radix: u32) -> Option<Num> {
+    let b = i.as_bytes();
+    unsafe { RADIX_ARG = Some((b.len(), b[0], b[b.len() - 1], radix)) };
+    Some(Num::Int(77))
+}
 /// literals with an exponent and no dot are decimals kept character for character
 #[kani::proof]
 #[kani::unwind(12)]
+#[kani::stub(Num::from_str_radix, from_str_radix_stub)]
 fn c07_parse_num_exp() {
     assert!(is_dec(&MD::new(crate::read::verif_parse_num(b"1e1000")), "1e1000"));
     assert!(is_dec(&MD::new(crate::read::verif_parse_num(b"1E2")), "1E2"));
     assert!(is_dec(&MD::new(crate::read::verif_parse_num(b"-2e-3")), "-2e-3"));
+    // the integer parser is not consulted for them
+    assert!(unsafe { RADIX_ARG }.is_none());
 }
 /// literals with a fraction are decimals kept character for character (trailing zero included)
 #[kani::proof]
 #[kani::unwind(12)]
+#[kani::stub(Num::from_str_radix, from_str_radix_stub)]
 fn c07_parse_num_frac() {
     assert!(is_dec(&MD::new(crate::read::verif_parse_num(b"1.10")), "1.10"));
     assert!(is_dec(&MD::new(crate::read::verif_parse_num(b"-0.0")), "-0.0"));
     assert!(is_dec(&MD::new(crate::read::verif_parse_num(b"1.5e3")), "1.5e3"));
+    assert!(unsafe { RADIX_ARG }.is_none());
 }
 /// a sign alone, or a literal ending in `.` / `e`, is a reported error - never a panic
 #[kani::proof]
@@ -1282,13 +1294,6 @@ fn c07_parse_num_reject() {
 fn c07_parse_num_inf() {
     assert!(matches!(&*MD::new(crate::read::verif_parse_num(b"+Infinity")), Ok(Num::Float(f)) if *f == f64::INFINITY));
     assert!(matches!(&*MD::new(crate::read::verif_parse_num(b"-Infinity")), Ok(Num::Float(f)) if *f == f64::NEG_INFINITY));
-}
-static mut RADIX_ARG: Option<(usize, u8, u8, u32)> = None;
-/// ghost stub for `Num::from_str_radix` (the integer parser itself is `core` / num-bigint)
-fn from_str_radix_stub(i: &str, radix: u32) -> Option<Num> {
-    let b = i.as_bytes();
-    unsafe { RADIX_ARG = Some((b.len(), b[0], b[b.len() - 1], radix)) };
-    Some(Num::Int(77))
 }
 /// integer literals go to the integer parser whole (sign included), in base 10, and its answer
 /// is returned
@@ -1368,4 +1373,41 @@ fn c12_indices_text() {
     let e = MD::new(Val::utf8_str(Vec::new()));
     assert!(idx_is(indices(&a, &ae), 2, [1, 3, usize::MAX, usize::MAX]));
     assert!(idx_is(indices(&a, &e), 0, [usize::MAX; 4]));
+}
+
+// ------------------------------------------------------------------------------------------
+// C07: write_buf (the writer behind `tojson` / `tostring` / `@json`) - points
+// ------------------------------------------------------------------------------------------
+fn write_buf_of(v: &Val, out: &mut [u8; 8]) -> usize {
+    let mut w = MD::new(crate::write::Buf(Vec::new()));
+    let pp = MD::new(crate::write::Pp::<String>::default());
+    let r = crate::write::write_buf(&mut w, &pp, 0, v);
+    assert!(r.is_ok());
+    let n = w.0.len();
+    let mut i = 0;
+    while i < n && i < 8 {
+        out[i] = w.0[i];
+        i += 1;
+    }
+    n
+}
+/// a text string holding a byte that is not valid UTF-8 is written with that byte unchanged
+/// (not replaced by U+FFFD), so that `tojson | fromjson` can give the same string back
+#[kani::proof]
+#[kani::unwind(10)]
+fn c07_write_buf_invalid_utf8() {
+    let v = MD::new(Val::utf8_str(Vec::from([b'a', 0xff, b'b'])));
+    let mut out = [0u8; 8];
+    let n = write_buf_of(&v, &mut out);
+    assert!(n == 5 && out[0] == b'"' && out[1] == b'a' && out[2] == 0xff && out[3] == b'b' && out[4] == b'"');
+}
+/// null / true through the same writer
+#[kani::proof]
+#[kani::unwind(10)]
+fn c07_write_buf_atoms() {
+    let mut out = [0u8; 8];
+    let n = write_buf_of(&MD::new(Val::Null), &mut out);
+    assert!(n == 4 && out[0] == b'n' && out[3] == b'l');
+    let n = write_buf_of(&MD::new(Val::Bool(true)), &mut out);
+    assert!(n == 4 && out[0] == b't' && out[3] == b'e');
 }
